@@ -10,6 +10,15 @@ open ArrowModel.Generated.C12
 
 /-! ## §1 i256 limbs -/
 
+theorem wrappingAdd_value (a b : I256) (ha : a.WF) (hb : b.WF) :
+    (a.wrappingAdd b).WF ∧ (a.wrappingAdd b).value = wrap256 (a.value + b.value) := by
+  obtain ⟨alo, ahi⟩ := a
+  obtain ⟨blo, bhi⟩ := b
+  simp only [I256.WF] at ha hb
+  simp only [I256.wrappingAdd, overflowingAddU, wrapU128, wrapI128, b2i, I256.WF, I256.value, wrap256]
+  by_cases hc : 2 ^ 128 ≤ alo + blo <;> simp only [hc, decide_true, decide_false, ↓reduceIte, Bool.false_eq_true] <;> omega
+
+
 theorem asI128_eq (n : Nat) : asI128 n = wrapI128 (n : Int) := by
   simp only [asI128, wrapI128]
   by_cases h : n % 2 ^ 128 < 2 ^ 127 <;> simp only [h, ↓reduceIte] <;> omega
@@ -211,5 +220,294 @@ theorem wrappingAbs_value (a : I256) (ha : a.WF) :
     have hd : I256.value ⟨alo, ahi⟩ - I256.value ⟨0, 0⟩ = v := by
       simp only [I256.value]; omega
     rw [hd]
+
+/-! ### multiplication -/
+
+theorem mul_lt_64 (x y : Nat) (hx : x < 2 ^ 64) (hy : y < 2 ^ 64) : x * y ≤ (2 ^ 64 - 1) * (2 ^ 64 - 1) :=
+  Nat.mul_le_mul (by omega) (by omega)
+
+theorem mulx_exact (a b : Nat) (ha : a < 2 ^ 128) (hb : b < 2 ^ 128) :
+    (mulx a b).1 < 2 ^ 128 ∧ (mulx a b).2 < 2 ^ 128 ∧ (mulx a b).1 + 2 ^ 128 * (mulx a b).2 = a * b := by
+  simp only [mulx, split64, MASK64, MULX_SPLIT_SHIFT, MULX_CARRY_SHIFT_1, MULX_HIGH_SHIFT_1, MULX_LOW_CARRY_SHIFT,
+    MULX_CARRY_SHIFT_2, MULX_HIGH_SHIFT_2, Nat.and_two_pow_sub_one_eq_mod, Nat.shiftRight_eq_div_pow, Nat.shiftLeft_eq, wrapU128]
+  have hal : a % 2 ^ 64 < 2 ^ 64 := Nat.mod_lt _ (by omega)
+  have hbl : b % 2 ^ 64 < 2 ^ 64 := Nat.mod_lt _ (by omega)
+  have hah : a / 2 ^ 64 < 2 ^ 64 := by omega
+  have hbh : b / 2 ^ 64 < 2 ^ 64 := by omega
+  have h0 := mul_lt_64 _ _ hal hbl
+  have h1 := mul_lt_64 _ _ hah hbl
+  have h2 := mul_lt_64 _ _ hbh hal
+  have h3 := mul_lt_64 _ _ hah hbh
+  have hab : a * b = (a / 2 ^ 64 * (b / 2 ^ 64)) * 2 ^ 128 + (a / 2 ^ 64 * (b % 2 ^ 64) + b / 2 ^ 64 * (a % 2 ^ 64)) * 2 ^ 64 + a % 2 ^ 64 * (b % 2 ^ 64) := by
+    have ea : a = a / 2 ^ 64 * 2 ^ 64 + a % 2 ^ 64 := by omega
+    have eb : b = b / 2 ^ 64 * 2 ^ 64 + b % 2 ^ 64 := by omega
+    generalize a / 2 ^ 64 = ah at *
+    generalize a % 2 ^ 64 = al at *
+    generalize b / 2 ^ 64 = bh at *
+    generalize b % 2 ^ 64 = bl at *
+    subst ea eb
+    grind
+  rw [hab]
+  generalize a % 2 ^ 64 * (b % 2 ^ 64) = p0 at *
+  generalize a / 2 ^ 64 * (b % 2 ^ 64) = p1 at *
+  generalize b / 2 ^ 64 * (a % 2 ^ 64) = p2 at *
+  generalize a / 2 ^ 64 * (b / 2 ^ 64) = p3 at *
+  omega
+theorem asI128_cases (n : Nat) (hn : n < 2 ^ 128) :
+    (n < 2 ^ 127 ∧ asI128 n = n) ∨ (2 ^ 127 ≤ n ∧ asI128 n = (n : Int) - 2 ^ 128) := by
+  rw [asI128_eq]; simp only [wrapI128]; omega
+
+theorem wrappingMul_value (a b : I256) (ha : a.WF) (hb : b.WF) :
+    (a.wrappingMul b).WF ∧ (a.wrappingMul b).value = wrap256 (a.value * b.value) := by
+  obtain ⟨alo, ahi⟩ := a
+  obtain ⟨blo, bhi⟩ := b
+  simp only [I256.WF] at ha hb
+  have hm := mulx_exact alo blo ha.1 hb.1
+  simp only [I256.wrappingMul]
+  generalize (mulx alo blo).1 = low at *
+  generalize (mulx alo blo).2 = high at *
+  have hprod : I256.value ⟨alo, ahi⟩ * I256.value ⟨blo, bhi⟩
+      = (ahi * bhi) * 2 ^ 256 + (ahi * (blo : Int) + (alo : Int) * bhi) * 2 ^ 128 + (alo : Int) * (blo : Int) := by
+    simp only [I256.value]; grind
+  have hT : (alo : Int) * (blo : Int) = (low : Int) + 2 ^ 128 * (high : Int) := by
+    have := hm.2.2
+    have h2 : ((low + 2 ^ 128 * high : Nat) : Int) = ((alo * blo : Nat) : Int) := by rw [this]
+    simp only [Int.natCast_add, Int.natCast_mul, Int.natCast_pow] at h2
+    omega
+  have hR : ∃ k : Int, ahi * asI128 blo = ahi * (blo : Int) - 2 ^ 128 * k := by
+    rcases asI128_cases blo hb.1 with h | h
+    · exact ⟨0, by rw [h.2]; omega⟩
+    · exact ⟨ahi, by rw [h.2, Int.mul_sub]; first | done | omega⟩
+  have hS : ∃ k : Int, asI128 alo * bhi = (alo : Int) * bhi - 2 ^ 128 * k := by
+    rcases asI128_cases alo ha.1 with h | h
+    · exact ⟨0, by rw [h.2]; omega⟩
+    · exact ⟨bhi, by rw [h.2, Int.sub_mul]; first | done | omega⟩
+  obtain ⟨k1, hk1⟩ := hR
+  obtain ⟨k2, hk2⟩ := hS
+  have hH : ∃ k : Int, asI128 high = (high : Int) - 2 ^ 128 * k := by
+    rcases asI128_cases high hm.2.1 with h | h
+    · exact ⟨0, by omega⟩
+    · exact ⟨1, by omega⟩
+  obtain ⟨k3, hk3⟩ := hH
+  rw [hprod, hk1, hk2, hk3, hT]
+  simp only [I256.WF, I256.value, wrap256, wrapI128]
+  generalize ahi * bhi = Q at *
+  generalize ahi * (blo : Int) = R at *
+  generalize (alo : Int) * bhi = S at *
+  omega
+
+/-! ## §3 arity.rs loops -/
+
+
+theorem decode_map_unary {α γ} (op : α → γ) (xs : List α) (vs : List Bool) :
+    decode (xs.map op) vs = unarySpec op (decode xs vs) := by
+  induction xs generalizing vs with
+  | nil => simp [decode, unarySpec]
+  | cons x xs ih =>
+    cases vs with
+    | nil => simp [decode, unarySpec]
+    | cons v vs =>
+      have := ih vs
+      simp only [unarySpec] at this
+      cases v <;> simp [decode, unarySpec, this]
+
+theorem tryUnaryVals_spec {α γ ε} (op : α → Except ε γ) (zero : γ) (xs : List α) (vs : List Bool) :
+    (tryUnaryVals op zero xs vs).map (decode · vs) = tryUnarySpec op (decode xs vs) := by
+  induction xs generalizing vs with
+  | nil => cases vs <;> simp [tryUnaryVals, decode, tryUnarySpec, Except.map]
+  | cons x xs ih =>
+    cases vs with
+    | nil => simp [tryUnaryVals, decode, tryUnarySpec, Except.map]
+    | cons v vs =>
+      have := ih vs
+      cases v
+      · simp only [tryUnaryVals, decode, tryUnarySpec, Bool.false_eq_true, ↓reduceIte]
+        rw [← this]
+        cases tryUnaryVals op zero xs vs <;> simp [Except.map, decode]
+      · simp only [tryUnaryVals, decode, tryUnarySpec, ↓reduceIte]
+        cases op x with
+        | error e => simp [Except.map]
+        | ok c =>
+          simp only
+          rw [← this]
+          cases tryUnaryVals op zero xs vs <;> simp [Except.map, decode]
+
+theorem decode_binary {α β γ} (op : α → β → γ) (as : List α) (bs : List β) (va vb : List Bool) :
+    decode (binaryVals op as bs) (unionValid va vb) = binarySpec op (decode as va) (decode bs vb) := by
+  induction as generalizing bs va vb with
+  | nil => cases bs <;> cases va <;> cases vb <;> simp [binaryVals, unionValid, decode, binarySpec]
+  | cons a as ih =>
+    cases bs with
+    | nil => cases va <;> cases vb <;> simp [binaryVals, unionValid, decode, binarySpec]
+    | cons b bs =>
+      cases va with
+      | nil => cases vb <;> simp [binaryVals, unionValid, decode, binarySpec]
+      | cons x va =>
+        cases vb with
+        | nil => simp [binaryVals, unionValid, decode, binarySpec]
+        | cons y vb =>
+          cases x <;> cases y <;> simp [binaryVals, unionValid, decode, binarySpec, ih]
+
+
+theorem tryBinaryVals_spec {α β γ ε} (op : α → β → Except ε γ) (zero : γ) (as : List α) (bs : List β) (va vb : List Bool) :
+    (tryBinaryVals op zero as bs (unionValid va vb)).map (decode · (unionValid va vb))
+      = tryBinarySpec op (decode as va) (decode bs vb) := by
+  induction as generalizing bs va vb with
+  | nil => cases bs <;> cases va <;> cases vb <;> simp [tryBinaryVals, unionValid, decode, tryBinarySpec, Except.map]
+  | cons a as ih =>
+    cases bs with
+    | nil => cases va <;> cases vb <;> simp [tryBinaryVals, unionValid, decode, tryBinarySpec, Except.map]
+    | cons b bs =>
+      cases va with
+      | nil => cases vb <;> simp [tryBinaryVals, unionValid, decode, tryBinarySpec, Except.map]
+      | cons x va =>
+        cases vb with
+        | nil => simp [tryBinaryVals, unionValid, decode, tryBinarySpec, Except.map]
+        | cons y vb =>
+          have := ih bs va vb
+          have nullCase : ∀ (hx : (x && y) = false),
+              (tryBinaryVals op zero (a :: as) (b :: bs) (unionValid (x :: va) (y :: vb))).map (decode · (unionValid (x :: va) (y :: vb)))
+              = (tryBinarySpec op (decode as va) (decode bs vb)).map (none :: ·) := by
+            intro hx
+            simp only [tryBinaryVals, unionValid, hx, Bool.false_eq_true, ↓reduceIte]
+            rw [← this]
+            cases tryBinaryVals op zero as bs (unionValid va vb) <;> simp [Except.map, decode]
+          cases x with
+          | false =>
+            rw [nullCase (by simp)]
+            cases y <;> simp [decode, tryBinarySpec]
+          | true =>
+            cases y with
+            | false =>
+              rw [nullCase (by simp)]
+              simp [decode, tryBinarySpec]
+            | true =>
+              simp only [tryBinaryVals, unionValid, decode, tryBinarySpec, Bool.and_self, ↓reduceIte]
+              rw [← this]
+              cases op a b with
+              | error e => simp [Except.map]
+              | ok c =>
+                cases tryBinaryVals op zero as bs (unionValid va vb) <;> simp [Except.map, decode]
+
+theorem tryBinaryNoNulls_eq {α β γ ε} (op : α → β → Except ε γ) (zero : γ) (as : List α) (bs : List β) (vs : List Bool)
+    (h : vs.all id = true) (hl : vs.length = as.length) (hl2 : as.length = bs.length) :
+    tryBinaryNoNulls op as bs = tryBinaryVals op zero as bs vs := by
+  induction as generalizing bs vs with
+  | nil => cases bs <;> cases vs <;> simp [tryBinaryNoNulls, tryBinaryVals]
+  | cons a as ih =>
+    cases bs with
+    | nil => simp at hl2
+    | cons b bs =>
+      cases vs with
+      | nil => simp at hl
+      | cons v vs =>
+        simp only [List.all_cons, id, Bool.and_eq_true] at h
+        simp only [List.length_cons, Nat.add_right_cancel_iff] at hl hl2
+        simp only [tryBinaryNoNulls, tryBinaryVals, h.1, ↓reduceIte, ih bs vs h.2 hl hl2]
+
+theorem unionValid_length (va vb : List Bool) (h : va.length = vb.length) : (unionValid va vb).length = va.length := by
+  induction va generalizing vb with
+  | nil => cases vb <;> simp [unionValid]
+  | cons a va ih =>
+    cases vb with
+    | nil => simp at h
+    | cons b vb => simp only [List.length_cons, Nat.add_right_cancel_iff] at h; simp [unionValid, ih vb h]
+
+theorem tryBinary_spec {α β γ ε} (op : α → β → Except ε γ) (zero : γ) (a : Arr α) (b : Arr β)
+    (ha : a.valid.length = a.vals.length) (hb : b.valid.length = b.vals.length) (hl : a.vals.length = b.vals.length) :
+    (tryBinary op zero a b).map Arr.logical = tryBinarySpec op a.logical b.logical := by
+  have hu := unionValid_length a.valid b.valid (by omega)
+  simp only [tryBinary]
+  split
+  · rename_i hall
+    rw [tryBinaryNoNulls_eq op zero a.vals b.vals _ hall (by omega) hl]
+    simp only [Arr.logical]
+    rw [← tryBinaryVals_spec op zero a.vals b.vals a.valid b.valid]
+    cases tryBinaryVals op zero a.vals b.vals (unionValid a.valid b.valid) <;> simp [Except.map, Arr.logical]
+  · simp only [Arr.logical]
+    rw [← tryBinaryVals_spec op zero a.vals b.vals a.valid b.valid]
+    cases tryBinaryVals op zero a.vals b.vals (unionValid a.valid b.valid) <;> simp [Except.map, Arr.logical]
+
+/-! ## §4 aggregates -/
+
+theorem sumCheckedLoop_spec (t : NT) (acc : Int) (xs : List Int) (vs : List Bool) :
+    sumCheckedLoop (addChecked t) acc xs vs =
+      if prefixesInRange t acc (nonNull (decode xs vs)) then .ok ((nonNull (decode xs vs)).foldl (· + ·) acc)
+      else .error .overflow := by
+  induction xs generalizing acc vs with
+  | nil => cases vs <;> simp [sumCheckedLoop, decode, nonNull, prefixesInRange]
+  | cons x xs ih =>
+    cases vs with
+    | nil => simp [sumCheckedLoop, decode, nonNull, prefixesInRange]
+    | cons v vs =>
+      cases v
+      · simp only [sumCheckedLoop, decode, nonNull, Bool.false_eq_true, ↓reduceIte, List.filterMap_cons, id]
+        exact ih acc vs
+      · simp only [sumCheckedLoop, decode, nonNull, ↓reduceIte, List.filterMap_cons, id, prefixesInRange, List.foldl_cons, addChecked, stdChecked, optOr]
+        by_cases hr : t.inRange (acc + x) = true
+        · simp only [hr, ↓reduceIte, Bool.true_and]
+          exact ih (acc + x) vs
+        · simp [hr, optOr]
+
+/-! ## §5 Kleene bit formulas, §6 decimal result types -/
+
+theorem andKleeneBit_spec (a b c d : Bool) :
+    optBit (andKleeneBit a b c d).1 (andKleeneBit a b c d).2 = kleeneAnd (optBit a b) (optBit c d) := by
+  cases a <;> cases b <;> cases c <;> cases d <;> rfl
+
+theorem orKleeneBit_spec (a b c d : Bool) :
+    optBit (orKleeneBit a b c d).1 (orKleeneBit a b c d).2 = kleeneOr (optBit a b) (optBit c d) := by
+  cases a <;> cases b <;> cases c <;> cases d <;> rfl
+
+theorem andKleene_words (a b c d : BitVec 64) (i : Nat) (hi : i < 64) :
+    optBit ((andKleeneValidity a b c d).getLsbD i) ((andKleeneValues b d).getLsbD i)
+      = kleeneAnd (optBit (a.getLsbD i) (b.getLsbD i)) (optBit (c.getLsbD i) (d.getLsbD i)) := by
+  rw [← andKleeneBit_spec]
+  simp [andKleeneValidity, andKleeneValues, andKleeneBit, hi]
+
+theorem orKleene_words (a b c d : BitVec 64) (i : Nat) (hi : i < 64) :
+    optBit ((orKleeneValidity a b c d).getLsbD i) ((orKleeneValues b d).getLsbD i)
+      = kleeneOr (optBit (a.getLsbD i) (b.getLsbD i)) (optBit (c.getLsbD i) (d.getLsbD i)) := by
+  rw [← orKleeneBit_spec]
+  simp [orKleeneValidity, orKleeneValues, orKleeneBit, hi]
+
+/-- one side without a null buffer (its validity is all ones): `a | !d` -/
+theorem andKleene1_words (a b d : BitVec 64) (i : Nat) (hi : i < 64) :
+    optBit ((andKleeneValidity1 a d).getLsbD i) ((andKleeneValues b d).getLsbD i)
+      = kleeneAnd (optBit (a.getLsbD i) (b.getLsbD i)) (some (d.getLsbD i)) := by
+  simp only [andKleeneValidity1, andKleeneValues, BitVec.getLsbD_or, BitVec.getLsbD_and, BitVec.getLsbD_not, hi, decide_true, Bool.true_and]
+  cases a.getLsbD i <;> cases b.getLsbD i <;> cases d.getLsbD i <;> rfl
+
+theorem orKleene1_words (a b d : BitVec 64) (i : Nat) (hi : i < 64) :
+    optBit ((orKleeneValidity1 a d).getLsbD i) ((orKleeneValues b d).getLsbD i)
+      = kleeneOr (optBit (a.getLsbD i) (b.getLsbD i)) (some (d.getLsbD i)) := by
+  simp only [orKleeneValidity1, orKleeneValues, BitVec.getLsbD_or, hi]
+  cases a.getLsbD i <;> cases b.getLsbD i <;> cases d.getLsbD i <;> rfl
+
+/-! decimal result types: the `i8`/`u8` code equals the documented rule on the domain
+`1 ≤ p ≤ P`, `0 ≤ s ≤ p`, `P ≤ 76` -/
+theorem decAddType_eq (maxP p1 s1 p2 s2 : Int) (hP : 1 ≤ maxP ∧ maxP ≤ 76)
+    (h1 : 0 ≤ s1 ∧ s1 ≤ p1 ∧ p1 ≤ maxP) (h2 : 0 ≤ s2 ∧ s2 ≤ p2 ∧ p2 ≤ maxP) :
+    decAddTypeM maxP p1 s1 p2 s2 = decAddType maxP p1 s1 p2 s2 := by
+  simp only [decAddTypeM, decAddType, satU8, asU8, satI8, wrapI8, Prod.mk.injEq, and_true]
+  omega
+
+theorem decMulType_eq (maxP p1 s1 p2 s2 : Int) (hP : 1 ≤ maxP ∧ maxP ≤ 76)
+    (h1 : 0 ≤ s1 ∧ s1 ≤ p1 ∧ p1 ≤ maxP) (h2 : 0 ≤ s2 ∧ s2 ≤ p2 ∧ p2 ≤ maxP) (hs : s1 + s2 ≤ 127) :
+    decMulTypeM maxP p1 s1 p2 s2 = decMulType maxP p1 s1 p2 s2 := by
+  simp only [decMulTypeM, decMulType, satU8, asU8, satI8, Prod.mk.injEq]
+  omega
+
+theorem decDivType_eq (maxP maxS p1 s1 p2 s2 : Int) (hP : 1 ≤ maxP ∧ maxP ≤ 76) (hS : 0 ≤ maxS ∧ maxS ≤ maxP)
+    (h1 : 0 ≤ s1 ∧ s1 ≤ p1 ∧ p1 ≤ maxP ∧ s1 ≤ maxS) (h2 : 0 ≤ s2 ∧ s2 ≤ p2 ∧ p2 ≤ maxP) :
+    (decDivTypeM maxP maxS p1 s1 p2 s2).1 = decDivType maxP maxS p1 s1 p2 s2 := by
+  simp only [decDivTypeM, decDivType, DECIMAL_DIV_SCALE_INCREMENT, asU8, satI8, wrapI8, Prod.mk.injEq, and_true]
+  omega
+
+theorem decRemType_eq (maxP p1 s1 p2 s2 : Int) (hP : 1 ≤ maxP ∧ maxP ≤ 76)
+    (h1 : 0 ≤ s1 ∧ s1 ≤ p1 ∧ p1 ≤ maxP) (h2 : 0 ≤ s2 ∧ s2 ≤ p2 ∧ p2 ≤ maxP) :
+    decRemTypeM maxP p1 s1 p2 s2 = decRemType maxP p1 s1 p2 s2 := by
+  simp only [decRemTypeM, decRemType, asU8, satI8, wrapI8, Prod.mk.injEq, and_true]
+  omega
 
 end ArrowModel.C12
